@@ -234,6 +234,21 @@ CLAIMED = {
         note=COMMON_NOTE + "Attribute strings and names are concrete (str.replace/split run natively); name opacity is C13.",
         technique="contract-based deductive verification: symbolic execution of the real parsers (round-trip postcondition)",
     ),
+    "C13": dict(
+        category="proof",
+        text=("Role-level contracts re-proved under a family of adversarial injective renamings: the stencil operators and cumsum "
+              "(5 base calls incl. multi-axis, mappings, default shifts), metric operations with the axis given as plain string / "
+              "list / tuple, the grid-ufunc contract with renamed dummy names (6 signatures x 3 ways), transform with arbitrary "
+              "target-dimension names, padding across axis-swapping links, SGRID / COMODO parsing with names that are substrings "
+              "of each other, and temporary-name clashes: for every renaming (single letters occurring in the position words, names "
+              "containing position words, prefixes / substrings of each other, case variants, 12-character names; 14 axis families "
+              "x 5 dimension families) the same call is accepted and satisfies the same postcondition for all sizes, data and fill "
+              "values - renaming changes nothing but the labels. The quantifier over renamings is BOUNDED to this family."),
+        design_ref="DESIGN.md 7/C13",
+        note=COMMON_NOTE + "Parametricity is not proved for all names: the renaming quantifier is a finite adversarial family "
+             "(listed in the evidence); within each renaming all numeric content is universally quantified.",
+        technique="contract-based deductive verification of role-level contracts, repeated under a finite family of adversarial renamings",
+    ),
 }
 
 NOT_YET = {}
